@@ -37,10 +37,10 @@ fn qvec_check<const D: usize, const L: usize, const N: usize>() {
 #[kani::proof] #[kani::unwind(8)] fn qvec_d3_l1() { qvec_check::<3, 1, 6>() }
 #[kani::proof] #[kani::unwind(8)] fn qvec_d1_l2() { qvec_check::<1, 2, 4>() }
 #[kani::proof] #[kani::unwind(8)] fn qvec_d2_l2() { qvec_check::<2, 2, 6>() }
-#[kani::proof] #[kani::unwind(10)] fn qvec_d3_l2() { qvec_check::<3, 2, 8>() }
-#[kani::proof] #[kani::unwind(10)] fn qvec_d1_l3() { qvec_check::<1, 3, 6>() }
-#[kani::proof] #[kani::unwind(12)] fn qvec_d4_l2() { qvec_check::<4, 2, 10>() }
-#[kani::proof] #[kani::unwind(12)] fn qvec_d3_l3() { qvec_check::<3, 3, 12>() }
+#[kani::proof] #[kani::unwind(12)] fn qvec_d3_l2() { qvec_check::<3, 2, 8>() }
+#[kani::proof] #[kani::unwind(12)] fn qvec_d1_l3() { qvec_check::<1, 3, 6>() }
+#[kani::proof] #[kani::unwind(16)] fn qvec_d4_l2() { qvec_check::<4, 2, 10>() }
+#[kani::proof] #[kani::unwind(18)] fn qvec_d3_l3() { qvec_check::<3, 3, 12>() }
 
 /// C08 cross-check (bounded: E edges, L loops, 8-bit ring): L[i][j] == sum_e (s_ei * s_ej) * x_e, symmetric.
 /// Complements the Verus proof when an edit moves compute_l_matrix outside the Verus subset (e.g. `continue` in a for loop).
@@ -68,7 +68,7 @@ fn lmat_check<const E: usize, const L: usize>() {
     }
     kani::cover!(true, "lmat_check reached its end");
 }
-#[kani::proof] #[kani::unwind(6)] fn lmat_e3_l2() { lmat_check::<3, 2>() }
+#[kani::proof] #[kani::unwind(9)] fn lmat_e3_l2() { lmat_check::<3, 2>() }
 #[kani::proof] #[kani::unwind(6)] fn lmat_e2_l2() { lmat_check::<2, 2>() }
 #[kani::proof] #[kani::unwind(8)] fn lmat_e4_l3() { lmat_check::<4, 3>() }
 
